@@ -478,6 +478,17 @@ def run(ctx):
               'decodable attribute tags without a name entry (convert_attribute_tag_to_name raises ValueError -> General Failure): %s' % missing)
     check_optional_deref(ctx, m)
     check_identifier_strings(ctx, m)
+    # ---------------- C13.R6 (lifted from C07)
+    ctx.rule('C13.R6', 'identifiers are never reused (AUTOINCREMENT on the base table, lifted from C07.R1): Destroy removes the base row by a bulk delete and leaves the subclass rows, so a reused identifier would collide with them (IntegrityError, answered with General Failure)')
+    from ..report import Ctx as _LCtx
+    from . import c07 as _lsrc
+    _sub = _LCtx('C07', 'quick', ctx.src, 0)
+    _lsrc.run(_sub)
+    _lifted = [f for f in _sub.findings if f.rule == 'C07.R1']
+    for f in _lifted:
+        ctx.fail('C13.R6', f.key, f.site, f.message)
+    if not _lifted:
+        ctx.ok('C13.R6', 'kmip/services/server/engine.py', 'the base table is AUTOINCREMENT')
     ctx.not_decided += ['implicit exceptions of third-party code for particular values (cryptography rejecting a nonce length, unpadding failure with a wrong key)']
     ctx.assumptions += ['requests reach the engine only through the decoders (wire-decoded provenance): field types are those the decoders construct',
                         'TypeError raises in pie validate() are infeasible for decoder-typed values; ValueError raises depend on values and are feasible']
